@@ -1422,7 +1422,8 @@ namespace awkward {
     /// {@link SliceArrayOf#shape SliceArray::shape}.
     const ContentPtr
       getitem_next_array_wrap(const ContentPtr& outcontent,
-                              const std::vector<int64_t>& shape) const;
+                              const std::vector<int64_t>& shape,
+                              int64_t rows = 1) const;
 
     /// @brief Internal function to convert #parameters into a string fragment
     /// for #tostring.
